@@ -7,8 +7,9 @@ DjangoCache, created with non-default settings and with both Disk classes.  At r
   close / reopen (new object) / pickle-unpickle / copy / other thread / fork (child reads everything, writes,
   exits; parent continues) / new process (subprocess importing diskcache from fw.REPO)
 happens; after each, every key is read through the (new) handle and compared with the reference, and the
-settings seen through the handle are compared with the creation settings (known finding
-`fanout_size_limit_reset`, D17).
+settings seen through the handle are compared with the creation settings (size_limit of a FanoutCache: the share
+of a shard; the former finding C18-F1 / D17 -- a reopen reset it to the default share -- is repaired, its witness
+stays in the settings-merge monitor as a regression input).
 GOLDEN DIRECTORY: fixtures/golden-5.6.3 (written once by the pinned release) is copied to a scratch directory
 and read with the current code: every recorded item (all key and value representations, expire time, tag),
 the settings, the queue keys, the shard of every FanoutCache key, the Deque and the Index; then a write.
@@ -52,7 +53,8 @@ ASSUMPTIONS = [
     'POSIX',
     'settings histories: resets complete one after another (no two writers of one setting at the same time); a handle that does not reload keeps '
     'the value it loaded (documented: settings attributes are loaded lazily, reset(key) refreshes them), so only handles that (re)load are compared; '
-    'size_limit of a FanoutCache is excluded there (finding C18-F1 rewrites it on every open)',
+    'size_limit of a FanoutCache is the share of a shard at creation (total / shards) and whatever reset(size_limit, v) stored afterwards '
+    '(FanoutCache.reset stores v in every shard undivided)',
     'suspended iterators: writers run one after another (no lock is held when the handle with the suspended iterator reads or writes), so a '
     'Timeout or a missing item there cannot be excused by contention; a write that makes no progress for 3 s is reported as blocked',
 ]
@@ -467,12 +469,8 @@ def run_history(ctx_scratch, case):
         def check_settings(label, got):
             diff = settings_diff(kind, want, got)
             if diff:
-                if diff == ['size_limit'] and kind in ('fanout', 'django') and 'size_limit' in settings:
-                    out.append(('fanout_size_limit_reset', 'after %s the handle shows size_limit %r, the cache was created with %r per shard'
-                                % (label, got.get('size_limit'), want['size_limit'])))
-                else:
-                    out.append(('settings_changed:%s' % '+'.join(diff), 'after %s the handle shows %r, created with %r'
-                                % (label, {k: got.get(k) for k in diff}, {k: want[k] for k in diff})))
+                out.append(('settings_changed:%s' % '+'.join(diff), 'after %s the handle shows %r, created with %r'
+                            % (label, {k: got.get(k) for k in diff}, {k: want[k] for k in diff})))
         check_settings('creation', seen_settings(kind, h))
         for si, step in enumerate(steps):
             where = 'step %d %r' % (si, step)
@@ -728,6 +726,71 @@ def settings_table(d):
         con.close()
 
 
+def merge_want(fan, shards, gd, prev):
+    """What a handle opened with the arguments gd must show, from the documentation alone: what is given now (size_limit of a
+    FanoutCache: the share of one shard); everything else is what the open before showed; on a new directory the default
+    (size_limit of a FanoutCache: the default total / shards)."""
+    want = {}
+    for k in core.DEFAULT_SETTINGS:
+        share = fan and k == 'size_limit'
+        if k in gd:
+            want[k] = gd[k] / shards if share else gd[k]
+        elif prev is not None:
+            want[k] = prev[k]
+        else:
+            want[k] = core.DEFAULT_SETTINGS[k] / shards if share else core.DEFAULT_SETTINGS[k]
+    return want
+
+
+def merge_run(d, fan, shards, opens):
+    """Opens the directory d once per element of `opens` (lists of (key, value) arguments).  -> (first violation or None,
+    records): a record holds the Settings table of shard 000 (of the Cache) before and after the open and what the handle showed."""
+    sub = os.path.join(d, '000') if fan else d
+    prev, viol, recs = None, None, []
+    for oi, given in enumerate(opens):
+        before = settings_table(sub) if oi else []
+        gd = dict(given)
+        h = diskcache.FanoutCache(d, shards=shards, **gd) if fan else diskcache.Cache(d, **gd)
+        seen = [(k, getattr(h, k)) for k in core.DEFAULT_SETTINGS]
+        per = [{k: getattr(c, k) for k in core.DEFAULT_SETTINGS} for c in h._shards] if fan else []
+        h.close()
+        after = settings_table(sub)
+        # monitor (implementation only): what is given now is seen; everything else is what earlier opens left
+        want = merge_want(fan, shards, gd, prev)
+        case = {'check': 'merge', 'fanout': fan, 'shards': shards, 'opens': [[list(x) for x in g] for g in opens[:oi + 1]]}
+        for who, shown in [('the handle', dict(seen))] + [('shard %03d' % i, p_) for i, p_ in enumerate(per)]:
+            bad = [k for k in core.DEFAULT_SETTINGS if not (type(shown[k]) in (int, float, str) and shown[k] == want[k])]
+            if bad and viol is None:
+                k = bad[0]
+                viol = ('given_setting_ignored' if k in gd else 'stored_setting_lost',
+                        'open number %d of a %s with %r: %s shows %s = %r, expected %r'
+                        % (oi + 1, 'FanoutCache(shards=%d)' % shards if fan else 'Cache', gd, who, k, shown[k], want[k]), case)
+        prev = dict(seen)
+        recs.append({'existed': oi > 0, 'before': before, 'given': list(given), 'seen': seen, 'after': after})
+    return viol, recs
+
+
+# regression input: the witness of the former finding C18-F1 / D17 (FanoutCache(d, shards=2, size_limit=1000).size_limit -> 500.0;
+# close; FanoutCache(d, shards=2).size_limit -> 536870912.0 before the repair, 500.0 since); a plain Cache kept its 1000
+WITNESS_D17 = [[('size_limit', 1000)], []]
+
+
+def witness_d17(res):
+    d = tempfile.mkdtemp(prefix='c18wit-')
+    try:
+        for fan, shards, name in ((True, 2, 'f'), (False, 1, 'c')):
+            viol, recs = merge_run(os.path.join(d, name), fan, shards, WITNESS_D17)
+            res.count(['merge-witness', fan, shards, repr(WITNESS_D17)], nontrivial=True)
+            if viol is not None:
+                sig, desc, case = viol
+                res.violations.append(fw.Violation(sig, desc + ' [regression input: witness of the former finding C18-F1]', case))
+            if fan:
+                res.extra['regression_witness_C18_F1'] = {'shown_at_creation': dict(recs[0]['seen'])['size_limit'],
+                                                         'shown_after_reopen': dict(recs[1]['seen'])['size_limit'], 'passes': viol is None}
+    finally:
+        shutil.rmtree(d, ignore_errors=True)
+
+
 def merge_cases(ctx, res, n, model=True):
     rng = ctx.rng
     checks, cases = [], []
@@ -745,46 +808,29 @@ def merge_cases(ctx, res, n, model=True):
         shards = rng.choice([1, 2, 4]) if fan else 1
         d = os.path.join(ctx.scratch('c18m'), 'c')
         opens = [rand_given() for _ in range(rng.randrange(1, 4))]
-        sub = os.path.join(d, '000') if fan else d
-        prev = None
-        for oi, given in enumerate(opens):
-            before = settings_table(sub) if oi else []
-            h = diskcache.FanoutCache(d, shards=shards, **dict(given)) if fan else diskcache.Cache(d, **dict(given))
-            seen = [(k, getattr(h, k)) for k in core.DEFAULT_SETTINGS]
-            h.close()
-            after = settings_table(sub)
-            # monitor (implementation only): what is given now is seen; everything else is what earlier opens left
-            gd = dict(given)
-            for k, v in seen:
-                if k in gd:
-                    w = gd[k] / shards if (fan and k == 'size_limit') else gd[k]
-                elif fan and k == 'size_limit':
-                    w = core.DEFAULT_SETTINGS[k] / shards
-                    if prev is not None and prev[k] != w:
-                        continue            # known finding fanout_size_limit_reset (witnessed separately)
-                else:
-                    w = prev[k] if prev is not None else core.DEFAULT_SETTINGS[k]
-                if v != w:
-                    res.violations.append(fw.Violation('given_setting_ignored' if k in gd else 'stored_setting_lost',
-                                                       'open number %d of a %s with %r shows %s = %r, expected %r'
-                                                       % (oi + 1, 'FanoutCache' if fan else 'Cache', gd, k, v, w),
-                                                       {'check': 'merge', 'fanout': fan, 'shards': shards, 'opens': [[list(x) for x in g] for g in opens[:oi + 1]]}))
-                    break
-            prev = dict(seen)
+        if ci < 9:          # directed: the witness of the former finding C18-F1; a plain reopen and one giving another setting; size_limit given late
+            opens = [WITNESS_D17, [[('size_limit', 2 ** 20)], [], [('cull_limit', 5)]], [[], [], [('size_limit', 2 ** 24)], []]][ci // 3]
+        viol, recs = merge_run(d, fan, shards, opens)
+        if viol is not None:
+            res.violations.append(fw.Violation(*viol))
+        for rec in recs:
+            before, given, seen, after = rec['before'], rec['given'], rec['seen'], rec['after']
             D = cdict(list(core.DEFAULT_SETTINGS.items()), table)
             M = cdict(list(core.METADATA.items()), table)
             S = cdict(before, table)
             G = cdict(given, table)
             ks = fw.clist([fw.cstr(k) for k in keys])
             if fan:
-                t = ('let dv := fun v : Z => v / %d in same_on %s (fanout_open_settings dv %s %s %s) %s && same_on %s (fanout_stored_after dv %s %s %s %s) %s'
-                     % (shards, ks, D, S, G, cdict(seen, table), ks, M, D, S, G, cdict(after, table)))
+                # `existed`: the shard's database file was there before this open (every open after the first)
+                ex = 'true' if rec['existed'] else 'false'
+                t = ('let dv := fun v : Z => v / %d in same_on %s (fanout_open_settings dv %s %s %s %s) %s && same_on %s (fanout_stored_after dv %s %s %s %s %s) %s'
+                     % (shards, ks, ex, D, S, G, cdict(seen, table), ks, ex, M, D, S, G, cdict(after, table)))
             else:
                 t = ('same_on %s (open_settings %s %s %s) %s && same_on %s (stored_after %s %s %s %s) %s'
                      % (ks, D, S, G, cdict(seen, table), ks, M, D, S, G, cdict(after, table)))
             checks.append(t)
-            cases.append({'fanout': fan, 'shards': shards, 'stored': [[k, repr(v)] for k, v in before], 'given': [[k, repr(v)] for k, v in given],
-                          'seen': [[k, repr(v)] for k, v in seen]})
+            cases.append({'fanout': fan, 'shards': shards, 'existed': rec['existed'], 'stored': [[k, repr(v)] for k, v in before],
+                          'given': [[k, repr(v)] for k, v in given], 'seen': [[k, repr(v)] for k, v in seen]})
             res.count(['merge', fan, shards, repr(before), repr(given)], nontrivial=bool(given) or bool(before))
     if not model:
         return
@@ -1100,17 +1146,20 @@ SH_EVENTS = ['reopen', 'close', 'pickle', 'copy', 'fresh', 'fresh', 'process_rea
 
 
 def sh_keys(kind):
-    # FanoutCache writes size_limit on every open (finding C18-F1): that key is left to the histories above
-    return sorted(k for k in SH_DOMAIN if not (kind == 'fanout' and k == 'size_limit'))
+    return sorted(SH_DOMAIN)
 
 
 class SettingsRef:
     """stored: what the last completed reset(key, value) / creation left for everybody; mem[h]: what handle h holds
     (loaded when it was opened / unpickled / copied, refreshed per key by reset(key), overwritten by its own reset(key, value))."""
 
-    def __init__(self, kind, init, nh):
+    def __init__(self, kind, init, nh, shards=1):
         self.stored = default_settings()
         self.stored.update(init)
+        if kind == 'fanout':
+            # creation divides the (given or default) total among the shards: every shard stores, and the handle shows, the share.
+            # reset('size_limit', v) afterwards stores v itself in every shard
+            self.stored['size_limit'] = self.stored['size_limit'] / shards
         self.mem = [dict(self.stored) for _ in range(nh)]
 
     def reset(self, h, key, value):
@@ -1129,7 +1178,8 @@ def gen_settings_history(rng, kind, nsteps):
     keys = sh_keys(kind)
     init = {k: rng.choice(SH_DOMAIN[k]) for k in rng.sample(keys, rng.randrange(0, 4))}
     nh = rng.choice([2, 2, 3])
-    ref = SettingsRef(kind, init, nh)
+    shards = rng.choice([1, 2, 3]) if kind == 'fanout' else 1
+    ref = SettingsRef(kind, init, nh, shards)
     steps = []
     for _ in range(nsteps):
         h = rng.randrange(nh)
@@ -1153,8 +1203,7 @@ def gen_settings_history(rng, kind, nsteps):
             steps.append([ev, h])
             if ev in ('reopen', 'pickle', 'copy'):
                 ref.load(h)
-    return {'check': 'settings_history', 'kind': kind, 'shards': rng.choice([1, 2, 3]) if kind == 'fanout' else 1,
-            'init': init, 'handles': nh, 'steps': steps}
+    return {'check': 'settings_history', 'kind': kind, 'shards': shards, 'init': init, 'handles': nh, 'steps': steps}
 
 
 def sh_open(kind, d, shards, settings=None):
@@ -1264,7 +1313,7 @@ def run_settings_history(scratch, case, worker):
     kind, shards, nh = case['kind'], case.get('shards', 1), case['handles']
     d = os.path.join(scratch, 'sh')
     found = []
-    ref = SettingsRef(kind, case['init'], nh)
+    ref = SettingsRef(kind, case['init'], nh, shards)
     keys = sh_keys(kind)
     hs = [sh_open(kind, d, shards, case['init'])]
     hs += [sh_open(kind, d, shards) for _ in range(nh - 1)]
@@ -1427,25 +1476,6 @@ def settings_histories(ctx, res, n_hist, n_steps):
     res.extra['settings_histories'] = n_hist
 
 
-def witness_d17():
-    d = tempfile.mkdtemp(prefix='c18wit-')
-    try:
-        f = diskcache.FanoutCache(os.path.join(d, 'f'), shards=2, size_limit=1000)
-        first = f.size_limit
-        f.close()
-        g = diskcache.FanoutCache(os.path.join(d, 'f'), shards=2)
-        second = g.size_limit
-        g.close()
-        c = diskcache.Cache(os.path.join(d, 'c'), size_limit=1000)
-        c.close()
-        c = diskcache.Cache(os.path.join(d, 'c'))
-        kept = c.size_limit
-        c.close()
-        return first == 500 and second != 500 and kept == 1000
-    finally:
-        shutil.rmtree(d, ignore_errors=True)
-
-
 def run(ctx, big=False, model=True):
     res = fw.Result()
     thorough = (not ctx.quick) or big
@@ -1454,7 +1484,9 @@ def run(ctx, big=False, model=True):
                 'tag_index, disk_min_file_size, disk_pickle_protocol, size_limit) and Disk/JSONDisk; ~22% of the steps are handle events '
                 '{close, reopen, pickle, copy, thread, fork, process}, ~12% clock ticks; after every event all keys are read and the settings compared.  '
                 'Golden directory: every recorded item, routing of every FanoutCache key, settings, queue keys, Deque, Index, then writes and check().  '
-                'Settings merge: 1-3 successive opens with random arguments compared with the model.  non-trivial history = contains a handle event; '
+                'Settings merge: 1-3 successive opens with random arguments (and three directed sequences, among them the witness of the former '
+                'finding C18-F1: size_limit given at creation, then a plain reopen) checked against "given now, else what the open before showed, else the '
+                'default" for the handle and every shard, and compared with the model.  non-trivial history = contains a handle event; '
                 'distinct = distinct (kind, disk, settings, steps) / golden item / (stored, given) pair.  '
                 'Suspended iterators: on Cache (iter, reversed, iterkeys both directions), FanoutCache (iter, reversed), Index (iter, reversed, keys, '
                 'values, items) and Deque (iter, reversed) a key iterator of handle A is left suspended after 1 / n-1 / 101 of 130 keys (second page); then '
@@ -1464,7 +1496,7 @@ def run(ctx, big=False, model=True):
                 'Settings histories: 2-3 handles on one Cache / FanoutCache(1-3 shards) directory created with random settings; 16 steps of '
                 'reset(key, value) (through the handle, in another thread, in a forked child, in another process; a third of them put back the value '
                 'the handle still holds), stats(enable), reset(key), close, reopen, pickle, copy, fresh handle, read in another process / forked child over '
-                'statistics, tag_index, cull_limit, size_limit (Cache), eviction_policy, disk_min_file_size, disk_pickle_protocol, sqlite_cache_size, '
+                'statistics, tag_index, cull_limit, size_limit (of a FanoutCache: the share stored at creation, then the value of the last reset), eviction_policy, disk_min_file_size, disk_pickle_protocol, sqlite_cache_size, '
                 'sqlite_synchronous; every handle that loads settings afterwards (reopened, unpickled, copied, fresh, other process, forked child, every '
                 'shard directory opened on its own) and every reset(key) must show the value of the last completed reset(key, value).')
     golden(ctx, res)
@@ -1483,7 +1515,7 @@ def run(ctx, big=False, model=True):
     t0 = _t.time()
     settings_histories(ctx, res, 400 if thorough else 70, 16)
     res.extra['settings_histories_s'] = round(_t.time() - t0, 1)
-    res.witnessed['fanout_size_limit_reset'] = witness_d17()
+    witness_d17(res)
     return res
 
 
@@ -1519,16 +1551,13 @@ def replay(payload):
                 print('%s: %s' % (sig, desc))
             return not found
         if case.get('check') == 'merge':
-            dd = os.path.join(d, 'c')
-            shown = None
-            for given in case['opens']:
-                gd = {k: v for k, v in given}
-                h = diskcache.FanoutCache(dd, shards=case['shards'], **gd) if case['fanout'] else diskcache.Cache(dd, **gd)
-                shown = {k: getattr(h, k) for k in core.DEFAULT_SETTINGS}
-                h.close()
-                print('opened with %r -> %r' % (gd, {k: shown[k] for k in sorted(set(gd) | {'size_limit'})}))
-            gd = {k: v for k, v in case['opens'][-1]}
-            return all(shown[k] == (v / case['shards'] if case['fanout'] and k == 'size_limit' else v) for k, v in gd.items())
+            viol, recs = merge_run(os.path.join(d, 'c'), case['fanout'], case['shards'], [[tuple(x) for x in g] for g in case['opens']])
+            for rec in recs:
+                shown = dict(rec['seen'])
+                print('opened with %r -> %r' % (dict(rec['given']), {k: shown[k] for k in sorted(set(dict(rec['given'])) | {'size_limit'})}))
+            if viol is not None:
+                print('%s: %s' % (viol[0], viol[1]))
+            return viol is None
         if case.get('check') == 'golden':
             class C:
                 def scratch(self, name=''):
